@@ -107,6 +107,46 @@ pub struct CoreInner {
 pub struct Core(pub Arc<Mutex<CoreInner>>);
 
 impl Core {
+    /// Merge all held user datagrams with the same (from, to) into one RTPS message carrying all
+    /// their submessages in sending order (what a batching peer would send). Returns the number
+    /// of datagrams that were merged away.
+    pub fn merge_held_user(&self) -> usize {
+        let mut c = self.lock();
+        let mut held: Vec<Datagram> = Vec::new();
+        let mut rest: Vec<Datagram> = Vec::new();
+        for d in c.inflight.drain(..) {
+            if d.meta { rest.push(d) } else { held.push(d) }
+        }
+        held.sort_by_key(|d| d.id);
+        let mut merged: Vec<Datagram> = Vec::new();
+        let mut removed = 0;
+        for d in held {
+            if let Some(m) = merged.iter_mut().find(|m| m.from == d.from && m.to == d.to && m.bytes.len() >= 20 && d.bytes.len() >= 20 && m.bytes[..20] == d.bytes[..20]) {
+                let mut b = (*m.bytes).clone();
+                b.extend_from_slice(&d.bytes[20..]);
+                let (kinds, desc) = describe(&b);
+                m.bytes = Arc::new(b);
+                m.kinds = kinds;
+                m.desc = desc;
+                removed += 1;
+            } else {
+                merged.push(d);
+            }
+        }
+        let t = c.now_ns - c.epoch_ns;
+        for m in &merged {
+            let mut ev = json!({"ev": "Send", "id": m.id, "from": m.from, "to": m.to, "meta": false, "t": t, "merged": true});
+            ev["subs"] = m.desc["subs"].clone();
+            c.log.push(ev);
+        }
+        rest.extend(merged);
+        c.inflight = rest;
+        removed
+    }
+}
+
+
+impl Core {
     pub fn new(seed: u64, fragment_size: usize) -> Self {
         Core(Arc::new(Mutex::new(CoreInner {
             now_ns: START_SEC * NS,
